@@ -8,6 +8,7 @@
 """
 from __future__ import annotations
 
+import collections.abc
 import functools
 import math
 
@@ -503,6 +504,29 @@ def dec_response(ints):
 
 # --------------------------------------------------------------------------- implementation runner
 
+def as_mappings(d, counter=None):
+    """A copy of the data graph in which a share of the objects are Mappings that are not dicts
+    (MappingProxyType, UserDict, ChainMap): resolvers and the default type resolver must read fields
+    and __typename from any Mapping.  Deterministic (by position), so reruns serve the same graph."""
+    import collections
+    import types
+    counter = [0] if counter is None else counter
+    if isinstance(d, list):
+        return [as_mappings(x, counter) for x in d]
+    if isinstance(d, dict):
+        counter[0] += 1
+        k = counter[0] % 7
+        m = {key: as_mappings(v, counter) for key, v in d.items()}
+        if k == 1:
+            return types.MappingProxyType(m)
+        if k == 3:
+            return collections.UserDict(m)
+        if k == 5:
+            return collections.ChainMap(m)
+        return m
+    return d
+
+
 def make_resolver(log, fields=None):
     def resolver(source, info, **args):
         fdef = info.parent_type.fields.get(info.field_name)
@@ -511,7 +535,7 @@ def make_resolver(log, fields=None):
         cargs = tuple((k, canon_pyarg(v, fdef.args[k].type) if fdef and k in fdef.args else ("?", k))
                       for k, v in args.items())
         log.append((tuple(info.path.as_list()), info.field_name, cargs))
-        v = source.get(info.field_name) if isinstance(source, dict) else None
+        v = source.get(info.field_name) if isinstance(source, collections.abc.Mapping) else None
         if isinstance(v, Raise):
             raise v
         return v
@@ -522,7 +546,7 @@ def run_impl(schema, doc, data, variables, operation_name=None):
     """execute_sync over the data graph; canonical observables of the response."""
     from graphql import execute_sync
     log, fields = [], {}
-    res = execute_sync(schema, doc, root_value=data, variable_values=variables,
+    res = execute_sync(schema, doc, root_value=as_mappings(data), variable_values=variables,
                        operation_name=operation_name, field_resolver=make_resolver(log, fields))
     errs = res.errors or []
     if res.data is None and errs and all(e.path is None for e in errs):
